@@ -127,14 +127,26 @@ class C05(Prop):
                     # source layout: soft line breaks / space runs between plain words (never next to a
                     # tag, never before a word that could start a block)
                     lay = []
+                    odd = r.random() < 0.4
                     for ws in wordlists:
                         t = ws[0]
                         for a, b in zip(ws, ws[1:]):
                             plain = a[-1].isalnum() and b[0].isalpha() and a[-1] not in "}>" and b[0] not in "{<"
+                            tagish = a[-2:] in ("%}", "}}", "#}", "->") or b[:2] in ("{%", "{{", "{#", "<!")
+                            if odd and tagish and r.random() < 0.6:
+                                # white space that is NOT a line break, directly next to a tag (str.splitlines() would split here)
+                                t += r.choice(["\u2028", "\u2029", "\x85", "\x0b", "\x1c", "\x1d"]) + b
+                                c["odd_space_next_to_tag"] = True
+                                continue
                             t += (r.choice([" ", "\n", "  ", "\n", " \n"]) if plain else " ") + b
                         lay.append(t)
                     c["layout"] = lay
                 yield c
+            elif k < 0.83:
+                cj = ["中文", "日本語", "汉字", "ｆｕｌｌ", "한국어", "e\u0301te\u0301", "naı\u0308ve", "wide漢字mix"]
+                ws = [r.choice(cj) if r.random() < 0.5 else plain_word(r, 8) for _ in range(r.randint(3, 14))]
+                ii, si = r.choice(PREFIXES)
+                yield {"kind": "lenfn", "text": " ".join(ws), "width": r.choice([r.randint(6, 20), r.randint(10, 40)]), "ii": ii, "si": si}
             elif k < 0.90:
                 pw = [[w for s in para_words(r, r.randint(1, 3), atoms=atoms, haz=haz) for w in s if "  " not in w]
                       for _ in range(r.randint(1, 3))]
@@ -275,6 +287,33 @@ class C05(Prop):
         if len(lines) >= 2 or case["width"] <= 0:
             col.distinct("para", case)
         col.hist("prefix", repr(case["ii"]))
+
+    def _check_lenfn(self, case, col):
+        """The public wrapping functions with a caller-supplied measure (display width: CJK / fullwidth = 2 columns,
+        combining marks = 0) instead of len()."""
+        import unicodedata
+
+        def dw(t):
+            return sum(0 if unicodedata.combining(ch) else (2 if unicodedata.east_asian_width(ch) in "WF" else 1) for ch in t)
+        text, width, ii, si = case["text"], case["width"], case["ii"], case["si"]
+        runs = [("wrap_paragraph", lambda: fm.wrap_paragraph(text, width=width, initial_indent=ii, subsequent_indent=si, len_fn=dw), True),
+                ("line_wrap_to_width", lambda: fm.line_wrap_to_width(width=width, len_fn=dw)(text, ii, si), True),
+                ("line_wrap_by_sentence", lambda: fm.line_wrap_by_sentence(width=width, len_fn=dw)(text, ii, si), False)]
+        for name, fn, fill in runs:
+            col.case()
+            col.mon("para")
+            res = fm.call(fn)
+            if isinstance(res, fm.Raised):
+                col.violation("para", f"C05/raised/{res.kind}", dict(case, via=name), res.text)
+                continue
+            lines = res.split("\n") if res else []
+            if len(lines) >= 2:
+                col.distinct("lenfn", name, text, width, ii)
+            col.count("custom_len_fn_runs")
+            devs = judge(text, lines, width, ii, si, fill=fill, allow_escape=False, lenf=dw)
+            # the listed overshoot mechanisms are stated for len(); with another measure only the plain clauses are judged
+            devs = [(k, d) for k, d in devs if not (k == "overlong" and not fill)]
+            self._report("para", devs, dict(case, via=name), col, "fill" if fill else "semantic", dw(ii), dw(si))
 
     def _check_wrapper(self, case, col):
         col.case()
